@@ -108,7 +108,7 @@ class Gen:
 
     def done(self, obj, kind, path, **kw):
         self.nodes.append(N(obj["id"], kind, list(path), cls=obj["type"].split(".")[-1], **kw))
-        self.defs.append({"path": list(path), "id": obj["id"]})
+        self.defs.append({"path": list(path), "id": obj["id"], "cls": obj["type"].split(".")[-1]})
         return obj
 
     def values(self, dom, n):
@@ -555,6 +555,10 @@ def inject(g, spec, kind):
     kind actually injected"""
     d = g.d
     defs, refs = g.defs, g.refs
+    if not defs:  # a program of plates only: give the fault something to act on
+        id_ = g.fresh()
+        spec.append({"id": id_, "type": "Parameter", "tensor": [0.5]})
+        defs.append({"path": [len(spec) - 1], "id": id_, "cls": "Parameter"})
 
     def rename(dst, src):
         """give the definition dst the id of src; references to dst follow"""
@@ -570,9 +574,10 @@ def inject(g, spec, kind):
 
     def any_pairs(pred):
         out = []
-        for i, a in enumerate(defs):
+        for a in defs:
             for b in defs:
-                if a is not b and pred(a["path"], b["path"]):
+                # b is the one that gets renamed; a taxon's name is also written in the newick string
+                if a is not b and b["cls"] != "Taxon" and pred(a["path"], b["path"]):
                     out.append((a, b))
         return out
 
@@ -585,9 +590,14 @@ def inject(g, spec, kind):
             a, b = d(st.sampled_from(ps))
             rename(b, a)
         else:
-            tops = [x for x in defs if len(x["path"]) == 1]
-            a = d(st.sampled_from(tops or defs))
-            spec.append(extra_param(a["id"]))
+            inner = [x for x in defs if len(x["path"]) > 1 and isinstance(x["path"][-1], int)]
+            if inner and d(st.integers(0, 3)) > 0:
+                a = d(st.sampled_from(inner))
+                jget(spec, a["path"][:-1]).append(extra_param(a["id"]))
+            else:
+                tops = [x for x in defs if len(x["path"]) == 1]
+                a = d(st.sampled_from(tops or defs))
+                spec.append(extra_param(a["id"]))
         return kind
     if kind == "dup_ancestor":
         ps = any_pairs(lambda p, q: _is_prefix(p, q))
